@@ -1,4 +1,5 @@
 import PPLV.Solver.PIPCoreTree
+import PPLV.Solver.PIPCoreSolveAsWritten
 import PPLV.Solver.PIPCoreSem
 
 /-! `pplv_pipcore`: replays the journal of `harness/c07_core.cc` (grammar there).
@@ -201,9 +202,9 @@ def solNodes : CTree → List SolNode
 
 /-! ### diagnosis of a wrong real answer: the solver without the second sign refinement
 
-`solveGoSA` is `PPLV.PIPCore.solveGo` with the sign analysis as a parameter; `signAnalysisNoR2` leaves out the
+`solveGoSA` is `PPLV.PIPCore.solveGoAsWritten` with the sign analysis as a parameter; `signAnalysisNoR2` leaves out the
 second refinement of the mixed rows (PIP_Tree.cc:2755-2808), which marks a row NEGATIVE when `t_i(z) > 0` is
-incompatible with the context although the row may be 0 there (open finding KF-C07-12).  It is used ONLY to tag a
+incompatible with the context although the row may be 0 there (finding KF-C07-12, repaired by commit deb2fdf).  It is used ONLY to tag a
 failure of the real tree: "the failure disappears without the second refinement". -/
 
 def signAnalysisNoR2 (cc : Mat → Option Bool) (nd : SolNode) (ctx : Mat) : Option (List RowSign × Firsts) :=
@@ -337,16 +338,28 @@ def judge (c : Case) (box window fuel ccfuel : Nat) (dump : Bool := false) : IO 
   let ctl : Ctl := { cut := c.pb.cut, piv := c.pb.piv }
   -- 1. the replay
   let mut fine := true
+  let mut variant := "repaired"
   match solve (ccModel ccfuel) ctl cfc fuel root ctx with
   | .fuel => IO.println s!"skip {id} model-fuel"; fine := false
   | .done model =>
     if (c.status == "OPT") != real.isSome then
       IO.println s!"MISMATCH {id} real:status status={c.status} tree={if real.isSome then "node" else "null"}"; fine := false
-    match diffTree real model "R" with
+    -- the model is the code WITH the repair of KF-C07-12 (commit deb2fdf).  A tree that differs from it but equals
+    -- the model of the code before the repair is a regression of the library to the old rule.
+    let diff := diffTree real model "R"
+    if diff.isSome then
+      match solveAsWritten (ccModel ccfuel) ctl cfc fuel root ctx with
+      | .done modelOld => if (diffTree real modelOld "R").isNone then variant := "as-written"
+      | .fuel => pure ()
+    if variant == "as-written" then
+      IO.println s!"MISMATCH {id} model:variant_as_written the-library-behaves-like-the-code-before-the-repair-of-KF-C07-12 cut={c.pb.cut} piv={c.pb.piv}"
+      fine := false
+    match diff with
     | some (what, path) =>
       -- CUTTING_STRATEGY_DEEPEST / ALL: the score of a row counts the STORED entries of the sparse row of `s`
       -- (PIP_Tree.cc:3469-3476: a stored zero adds `denom`), which a dense model cannot know: not compared
-      if c.pb.cut != 0 then IO.println s!"skip {id} sparse-dependent-cut-choice model:{what} at={path}"
+      if variant == "as-written" then pure ()
+      else if c.pb.cut != 0 then IO.println s!"skip {id} sparse-dependent-cut-choice model:{what} at={path}"
       else IO.println s!"MISMATCH {id} model:{what} at={path} cut={c.pb.cut} piv={c.pb.piv} big={c.pb.big}"
       fine := false
       if dump then
@@ -416,7 +429,7 @@ def judge (c : Case) (box window fuel ccfuel : Nat) (dump : Bool := false) : IO 
       | none => pure ()
   if fine then
     let st := match real with | some t => treeStats nr0 t 0 {} | none => {}
-    IO.println s!"ok {id} nv={root.tab.ns} np={root.tab.nt - 1} rows={nr0} ctx={ctx.length} cut={c.pb.cut} piv={c.pb.piv} big={c.pb.big} sols={st.sols} decs={st.decs} arts={st.arts} cutrows={st.cutRows} maxden={st.maxDen} depth={st.depth} evals={evals} unknown={unknown} points={points} affine={affine} null={if real.isSome then 0 else 1}"
+    IO.println s!"ok {id} nv={root.tab.ns} np={root.tab.nt - 1} rows={nr0} ctx={ctx.length} cut={c.pb.cut} piv={c.pb.piv} big={c.pb.big} sols={st.sols} decs={st.decs} arts={st.arts} cutrows={st.cutRows} maxden={st.maxDen} depth={st.depth} evals={evals} unknown={unknown} points={points} affine={affine} null={if real.isSome then 0 else 1} variant={variant}"
 
 def main (args : List String) : IO UInt32 := do
   let box := argNat args "--box" 5
